@@ -71,12 +71,25 @@ def judge(module, cfg, traces, *, extra_doc=None, env=None, chunk=3000, timeout=
     tot_states = 0
     wall = 0.0
 
+    eval_errors = {}
+
     def work(item):
         off, trs = item
-        return off, _run_chunk(module, cfg_text, trs, extra_doc, env, timeout, False, heap)
+        try:
+            return [(off, _run_chunk(module, cfg_text, trs, extra_doc, env, timeout, False, heap))]
+        except tlc.MachineryError as e:
+            # TLC could not evaluate some event (an implementation returned something outside the trace
+            # vocabulary): isolate the offending trace(s) by bisection; they count as not accepted
+            if len(trs) == 1:
+                msg = str(e)
+                k = msg.find("Error:")
+                eval_errors[off] = "TLC evaluation error: " + " ".join((msg[k:k + 600] if k >= 0 else msg[-600:]).split())
+                return []
+            mid = len(trs) // 2
+            return work((off, trs[:mid])) + work((off + mid, trs[mid:]))
 
     with cf.ThreadPoolExecutor(max_workers=max(1, min(parallel, len(chunks)))) as ex:
-        for off, res in ex.map(work, chunks):
+        for off, res in (x for lst in ex.map(work, chunks) for x in lst):
             tot_states += res.distinct
             wall += res.wall
             for line in res.prints:
@@ -87,7 +100,9 @@ def judge(module, cfg, traces, *, extra_doc=None, env=None, chunk=3000, timeout=
                     devs = frozenset(x.strip().strip('"') for x in m.group(2).split(",") if x.strip())
                     if devs not in v.devsets:
                         v.devsets.append(devs)
-    rejected = [i for i, v in enumerate(verdicts) if not v.accepted]
+    for i, msg in eval_errors.items():
+        verdicts[i].at, verdicts[i].state = None, msg
+    rejected = [i for i, v in enumerate(verdicts) if not v.accepted and i not in eval_errors]
     if rejected and diagnose:
         sub = rejected[:200]
         res = _run_chunk(module, cfg_text, [traces[i] for i in sub], extra_doc, env, timeout, True, heap)
